@@ -401,6 +401,19 @@ def run_seq(ctx, cfg, ops, seed):
                 pts = [old_or_new() if rng.random() < 0.3 else _sample_point(rng, cfg) for _ in range(n)]
                 arr = np.array(pts, dtype=float).reshape((n, d))
                 lead = (n,)
+                if n and rng.random() < 0.3:
+                    # points with whole-number coordinates handed over as an INTEGER array (box corners written as ints, an integer lattice): the values are
+                    # those of the same points as floats (missed seed C12_9: result array allocated with the dtype of the coordinates)
+                    ipts = []
+                    for _ in range(n):
+                        q = []
+                        for k in range(d):
+                            lo_k, hi_k = int(np.ceil(cfg["lo"][k])), int(np.floor(cfg["hi"][k]))
+                            q.append(float(rng.randint(lo_k, hi_k)) if lo_k <= hi_k else None)
+                        ipts.append(q)
+                    if all(v is not None for q in ipts for v in q):
+                        pts = [tuple(q) for q in ipts]
+                        arr = np.array(pts, dtype=np.int64).reshape((n, d))
             else:
                 m, n = rng.randint(1, 2), rng.randint(1, 3)
                 pts = new_points(m * n)
